@@ -52,6 +52,8 @@ SLICE_EDITS = (
     ("rawslice", None, -1, None),
     ("rawslice", 0, 4, 2),
     ("rawslice", None, None, -1),
+    ("rawslice", None, None, 0),
+    ("rawslice", 1, 3, 0),
     ("index", 2),
 )
 IT_EDITS = (
@@ -79,6 +81,13 @@ SQL_EDITS = (
     ("calc", "w", spaces.C_ONLY_IT),
     S((spaces.C_ONLY_IT, True)),
     ("join", ("K",), ("only", "iteration", ("gt", R("d"), R("a"))), False),
+    # ill-formed joins issued through Join(...).apply(lhs, rhs) directly, common columns resolved or not
+    ("join", ("K",), Q_GT_0, False, ("a",), "direct"),
+    ("join", ("K",), Q_GT_0, True, None, "direct"),
+    ("join", ("K",), ("gt", R("d"), R("q")), False, (), "direct"),
+    ("join", ("K",), None, False, ("b",), "direct"),
+    ("join", ("K",), ("only", "iteration", ("gt", R("d"), R("a"))), False, ("a",), "direct"),
+    ("join", ("K",), ("only", "iteration", ("gt", R("d"), R("a"))), True, None, "direct"),
 )
 MULTI_EDITS = (
     ("join", ("I1",), None, False),
